@@ -6,6 +6,7 @@ import (
 	"os"
 	"path/filepath"
 	"regexp"
+	"runtime/pprof"
 	"sort"
 	"strconv"
 	"strings"
@@ -158,6 +159,12 @@ func checkMain(args []string) int {
 		opts.timeout = 60
 	}
 	start := time.Now()
+	if pf := os.Getenv("VERIF_PROF"); pf != "" {
+		if f, err := os.Create(pf); err == nil {
+			pprof.StartCPUProfile(f)
+			defer pprof.StopCPUProfile()
+		}
+	}
 	code, ev := runCheck(opts)
 	ev["wall_s"] = time.Since(start).Seconds()
 	evPath := filepath.Join(opts.verif, "evidence", opts.prop+".json")
@@ -192,7 +199,14 @@ func runCheck(opts checkOpts) (int, map[string]any) {
 		ev["level"] = "other"
 		return 2, ev
 	}
+	t0 := time.Now()
+	tick := func(what string) {
+		if os.Getenv("VERIF_TIMING") != "" {
+			fmt.Fprintf(os.Stderr, "[timing] %-12s %6.1fs\n", what, time.Since(t0).Seconds())
+		}
+	}
 	en, err := loadEngine(opts.repo, opts.spec)
+	tick("load")
 	if err != nil {
 		return fail(err.Error())
 	}
@@ -244,6 +258,7 @@ func runCheck(opts checkOpts) (int, map[string]any) {
 			all = append(all, &obResult{O: o, VC: vc})
 		}
 	}
+	tick("vcgen")
 	if len(missing) > 0 {
 		// a function under contract disappeared: the contract cannot be checked
 		return fail("functions under contract not found in the source tree: " + strings.Join(missing, ", "))
@@ -263,8 +278,8 @@ func runCheck(opts checkOpts) (int, map[string]any) {
 	}
 	have := map[string]bool{}
 	for _, r := range all {
-		if r.O.Kind == "nopanic" || r.O.Kind == "modifies" {
-			continue
+		if r.O.Kind == "nopanic" || r.O.Kind == "modifies" || r.O.Kind == "pre" || r.O.Kind == "cover" || r.O.Kind == "assert" {
+			continue // these depend on the shape of the code, not on the contract clauses
 		}
 		have[clauseKey(r.O.Name)] = true
 	}
@@ -293,7 +308,9 @@ func runCheck(opts checkOpts) (int, map[string]any) {
 		r.File = files[i]
 		writeFile(files[i], en.assemble(r.VC, r.O, true))
 	}
+	tick("assemble")
 	res := runAll(files, opts.timeout, 16, opts.tier == "thorough")
+	tick("solve")
 	solverTime := 0.0
 	byBackend := map[string]int{}
 	discharged, violations, known, covers := 0, 0, 0, 0
@@ -304,6 +321,8 @@ func runCheck(opts checkOpts) (int, map[string]any) {
 	}
 	var slows []slow
 	knownPrinted := map[string]bool{}
+	var coverFails, deadReturns []string
+	pathTotal, pathDead := map[string]int{}, map[string]int{}
 	for i, r := range all {
 		r.R = res[i]
 		solverTime += r.R.Time
@@ -316,9 +335,17 @@ func runCheck(opts checkOpts) (int, map[string]any) {
 		}
 		if r.O.WantSat {
 			covers++
-			if r.R.Status == "unsat" {
+			if strings.Contains(r.O.Name, "/smoke.path@") {
+				pathTotal[r.O.Func]++
+				if r.R.Status == "unsat" {
+					pathDead[r.O.Func]++
+					deadReturns = append(deadReturns, r.O.Name+" @ "+r.O.Where)
+				}
+			}
+			if r.R.Status == "unsat" && !r.O.Dead {
 				r.Status = "cover-fail"
-				return fail("vacuity: the preconditions of " + r.O.Func + " are contradictory (" + r.O.Name + ")")
+				coverFails = append(coverFails, r.O.Name+" @ "+r.O.Where)
+				continue
 			}
 			r.Status = "cover-ok"
 			continue
@@ -362,6 +389,16 @@ func runCheck(opts checkOpts) (int, map[string]any) {
 		}
 		r.Status = "violation"
 		violations++
+	}
+	for fn, n := range pathTotal {
+		if n > 0 && pathDead[fn] == n {
+			coverFails = append(coverFails, fn+": no return site is reachable under the contract")
+		}
+	}
+	sort.Strings(coverFails)
+	cov["unreachable_return_sites_under_contract"] = deadReturns
+	if len(coverFails) > 0 {
+		return fail("vacuity: contradictory assumptions, or return sites that no input reaches (declare dead code under the contract with 'deadreturn'): " + strings.Join(coverFails, "; "))
 	}
 	sort.Slice(slows, func(i, j int) bool { return slows[i].t > slows[j].t })
 	// report violations
